@@ -576,3 +576,7 @@ def dtab_mapref(ctx, prog):
 dtab_mapref.rule_id = "C01.DTAB-mapref"
 
 RULES = [sib_children, pdom_sched, dom_stamp, latch, depend_on_cutoff, dtab_mapref]
+
+# control signature of the bookkeeping effects this property depends on (rules/ctrlsig.py)
+from .ctrlsig import make_rule as _ctrl_rule  # noqa: E402
+RULES.append(_ctrl_rule("C01"))
